@@ -26,4 +26,20 @@ def exec_field(scn):
         rec["px"] = [[x, y] for y in range(img.size[1]) for x in range(img.size[0]) if data[x, y] != (0, 0, 0)]
     except Exception as e:
         rec["exc"] = exc_name(e).split(":")[0]
-    return [rec]
+        return [rec]
+    out = [rec]
+    # the folded export of the same image: stages of `mx` rows side by side, separator colour #525252
+    for mx, line in ((7, 3), (rec["h"], 2)):
+        if mx <= 0:
+            continue
+        r2 = {"id": rid + f"/fold{mx}.{line}", "op": "fold", "cls": f"ext.playfield.fold.clw{c['clw']}", "ext": True, "exc": "", "w": rec["w"], "h": rec["h"],
+              "px": rec["px"], "mx": mx, "line": line, "fw": 0, "fh": 0, "fpx": []}
+        try:
+            f = pf.export_fold(max_height=mx, stage_line_width=line).convert("RGB")
+            r2["fw"], r2["fh"] = f.size
+            d2 = f.load()
+            r2["fpx"] = [[x, y] for y in range(f.size[1]) for x in range(f.size[0]) if d2[x, y] not in ((0, 0, 0), (0x52, 0x52, 0x52))]
+        except Exception as e:
+            r2["exc"] = exc_name(e).split(":")[0]
+        out.append(r2)
+    return out
